@@ -67,6 +67,8 @@ type Engine struct {
 	allTypesPkgs []*types.Package
 	specOrder []*SpecFunc
 	axiomDecls []*AxiomDecl
+	eptrDone   bool
+	curElemPtrs bool
 	rawSMT [][2]string
 	extFuncs map[string]string
 	structCount int
@@ -492,4 +494,15 @@ func (e *Engine) needBytes() {
 	ax("sbytes_len", "(forall ((s Str)) (! (= (blen (sbytes s)) (slen s)) :pattern ((sbytes s))))")
 	ax("mkstr_sbytes", "(forall ((s Str)) (! (= (mkstr (sbytes s)) s) :pattern ((sbytes s))))")
 	ax("sbytes_mkstr", "(forall ((b Bytes)) (! (= (sbytes (mkstr b)) b) :pattern ((mkstr b))))")
+}
+
+// Pointers to slice elements as first-class terms (contracts that `use elemptrs`): eptr(base, index) is injective and
+// disjoint from object locations.
+func (e *Engine) needEptr() {
+	if e.eptrDone {
+		return
+	}
+	e.eptrDone = true
+	e.d.add("eptr", "(declare-fun eptr (Int Int) Int)\n(declare-fun ebase (Int) Int)\n(declare-fun eidx (Int) Int)\n(declare-fun iselem (Int) Bool)")
+	e.d.addAxiom("core", "eptr_inj", "(forall ((b Int) (i Int)) (! (and (= (ebase (eptr b i)) b) (= (eidx (eptr b i)) i) (iselem (eptr b i)) (> (eptr b i) 0)) :pattern ((eptr b i))))")
 }
